@@ -84,7 +84,22 @@ func newAlgoSUT(r *rng, algo, wrap string) *algoSUT {
 		mult := []int{4, 10, 30}[r.intn(3)] // C07 and C15 are jointly satisfiable only if probing leaves room for an update between probes (multiplier >= 4)
 		c.ProbeMax = -1                     // bound = multiplier x largest estimate seen, computed by the contract
 		c.Inc = mult
-		v := limit.NewVegasLimitWithRegistry(c.Name, c.Initial, nil, c.Ceil, s.smoothing, nil, nil, nil, nil, nil, mult, nil, s.reg)
+		var v *limit.VegasLimit
+		switch r.intn(8) {
+		case 0:
+			// "take the default" multipliers (0, -1: the convention of the default constructors) mean 30
+			c.Inc = 30
+			v = limit.NewVegasLimitWithRegistry(c.Name, c.Initial, nil, c.Ceil, s.smoothing, nil, nil, nil, nil, nil, []int{0, -1}[r.intn(2)], nil, s.reg)
+		case 1:
+			// the default constructors: initial 20 (or as given), maximum 1000, smoothing 1, multiplier 30
+			c.Initial, c.Ceil, c.Inc, s.smoothing = 20, 1000, 30, 1.0
+			v = limit.NewDefaultVegasLimit(c.Name, nil, s.reg)
+		case 2:
+			c.Ceil, c.Inc, s.smoothing = 1000, 30, 1.0
+			v = limit.NewDefaultVegasLimitWithLimit(c.Name, c.Initial, nil, s.reg)
+		default:
+			v = limit.NewVegasLimitWithRegistry(c.Name, c.Initial, nil, c.Ceil, s.smoothing, nil, nil, nil, nil, nil, mult, nil, s.reg)
+		}
 		s.vegas, s.inner = v, v
 	case "gradient":
 		c.Ceil = []int{50, 200, 1000}[r.intn(3)]
